@@ -22,6 +22,7 @@ var concSpecs = []concSpec{
 	{file: "GenConcLimit.v", part1: "GenLimit.v", dir: "v2/limit", roots: []string{"Discipline.main"}},
 	{file: "GenConcJoinV2.v", part1: "GenJoinV2.v", dir: "v2/join", roots: []string{"Discipline.main"}},
 	{file: "GenConcUnite.v", part1: "GenJoinUniteV2.v", dir: "v2/join/unite", roots: []string{"Discipline.main"}},
+	{file: "GenConcV1Prio.v", part1: "GenV1Prio.v", dir: "priority", roots: []string{"Discipline.main"}},
 }
 
 type concFn struct {
@@ -731,6 +732,15 @@ func (x *cctx) stmt(s ast.Stmt) ([]string, error) {
 					return append(pre, "Sleep "+fun(d)), nil
 				case callee.Pkg().Path() == "time" && callee.Name() == "Stop" && recvName(callee) == "Ticker":
 					return []string{"TickerStop"}, nil
+				case strings.HasSuffix(callee.Pkg().Path(), "akramarenkov/breaker") && callee.Name() == "Complete":
+					// dsc.breaker.Complete(): the goroutine tells the breaker that it has ended -- a close of the channel C<field>Complete
+					if ms, ok := ast.Unparen(call.Fun).(*ast.SelectorExpr); ok {
+						if fs, ok := ast.Unparen(ms.X).(*ast.SelectorExpr); ok {
+							if lv := t.identVar(fs.X); lv != nil && lv.proj == "st_dsc" {
+								return []string{fmt.Sprintf("Close (fun v => %s)", x.c.chanCtor("C"+title(fs.Sel.Name)+"Complete", ""))}, nil
+							}
+						}
+					}
 				}
 				if c2, ok := x.isConc(call); ok {
 					pre, err := x.hoistArgs(call)
@@ -1168,13 +1178,28 @@ func (x *cctx) chanExpr(e ast.Expr) (string, types.Type, error) {
 	if !ok {
 		return "", nil, t.posErr(e, "not a channel")
 	}
-	sel, ok := ast.Unparen(e).(*ast.SelectorExpr)
-	if !ok {
-		return "", nil, t.posErr(e, "unsupported channel expression")
-	}
 	isRecv := func(b ast.Expr) bool {
 		lv := t.identVar(b)
 		return lv != nil && lv.proj == "st_dsc"
+	}
+	// dsc.breaker.IsBreaked(), dsc.opts.Ctx.Done(): the channel that is closed when the breaker is broken / the context is
+	// cancelled (the only answer to a receive is "closed")
+	if call, ok := ast.Unparen(e).(*ast.CallExpr); ok && len(call.Args) == 0 {
+		if ms, ok := ast.Unparen(call.Fun).(*ast.SelectorExpr); ok && (ms.Sel.Name == "IsBreaked" || ms.Sel.Name == "Done") {
+			if fs, ok := ast.Unparen(ms.X).(*ast.SelectorExpr); ok {
+				root := ast.Unparen(fs.X)
+				if inner, ok := root.(*ast.SelectorExpr); ok {
+					root = ast.Unparen(inner.X)
+				}
+				if isRecv(root) {
+					return x.c.chanCtor("C"+title(fs.Sel.Name)+title(ms.Sel.Name), ""), ch.Elem(), nil
+				}
+			}
+		}
+	}
+	sel, ok := ast.Unparen(e).(*ast.SelectorExpr)
+	if !ok {
+		return "", nil, t.posErr(e, "unsupported channel expression")
 	}
 	switch b := ast.Unparen(sel.X).(type) {
 	case *ast.Ident:
